@@ -139,15 +139,19 @@ Theorem C06_unordered_erase_range_cases : forall l first last ps,
 Proof. exact us_erase_range_cases. Qed.
 Print Assumptions C06_unordered_erase_range_cases.
 
-(* unordered_multimap::erase(first,last) (unordered_multimap.h:569-592): same statement; a lookup-derived `first`
-   walks the rest of its key and then reaches end(), so erase(equal_range(k)) is the whole-key range. *)
+(* unordered_multimap::erase(first,last) (unordered_multimap.h:569-592): throws only for ranges of 2..n-1 elements; otherwise
+   removes exactly the visited elements, which are then 0, 1, a whole key (first is the key's first value, last its end) or
+   all n elements.  A lookup-derived `first` walks the rest of its key and then reaches end(), so erase(equal_range(k)) is the
+   whole-key range.  (The RETURNED iterator is part of the model and compared with the real container in the
+   correspondence, but - unlike for unordered_set/map - it is not part of this theorem.) *)
 Theorem C06_unordered_multimap_erase_range_cases : forall l first last ps,
   let n := length l in
   it_wf n first -> it_wf n last ->
   walk (mm_next l) (S n) first last = Some ps ->
   match mm_erase_range l first last with
-  | Throw => 2 <= length ps
-  | Done rest ret => exists i m, ps = seq i m /\ rest = erase_range i (i + m) l
+  | Throw => 2 <= length ps < length l
+  | Done rest ret => exists i m, ps = seq i m /\ rest = erase_range i (i + m) l /\
+                     (m = 0 \/ m = 1 \/ (i = kstart l i /\ i + m = kend l i) \/ m = length l)
   end.
 Proof. exact mm_erase_range_cases. Qed.
 Print Assumptions C06_unordered_multimap_erase_range_cases.
@@ -185,7 +189,7 @@ Theorem C06_unordered_multimap_step_abstraction : forall s o,
   | MIns k v => Permutation (mm_pairs (mm_step s o)) (snd (u_insert true (k, v) (mm_pairs s)))
   | MEraseKey k => mm_pairs (mm_step s o) = snd (u_erase_key k (mm_pairs s))
   | MEraseIf m r => mm_pairs (mm_step s o) = filter (fun e => negb (fst e mod m =? r)%Z) (mm_pairs s)
-  | MErasePair _ _ => True
+  | MErasePair k v => NoDup (map fst s) -> In (k, v) (mm_pairs s) -> Permutation (mm_pairs s) ((k, v) :: mm_pairs (mm_step s o))
   | MClear => mm_pairs (mm_step s o) = []
   end.
 Proof. exact mm_step_abstraction. Qed.
@@ -250,8 +254,9 @@ Theorem C06_gen_unordered_multimap_erase_range_cases : forall l first last ps,
   it_wf (length l) first -> it_wf (length l) last ->
   walk (mm_next l) (S (length l)) first last = Some ps ->
   match gen_mm_erase_range l first last with
-  | Throw => 2 <= length ps
-  | Done rest ret => exists i m, ps = seq i m /\ rest = erase_range i (i + m) l
+  | Throw => 2 <= length ps < length l
+  | Done rest ret => exists i m, ps = seq i m /\ rest = erase_range i (i + m) l /\
+                     (m = 0 \/ m = 1 \/ (i = kstart l i /\ i + m = kend l i) \/ m = length l)
   end.
 Proof. exact gen_unordered_multimap_erase_range_cases. Qed.
 Print Assumptions C06_gen_unordered_multimap_erase_range_cases.
@@ -373,7 +378,7 @@ Print Assumptions C06_gen_unordered_insert_hint_node_spec.
 Theorem C06_gen_node_hint_same_code :
   Gen_MSetNodeHint.insert_hint_node = Gen_SetNodeHint.insert_hint_node /\
   Gen_UMapNodeHint.insert_hint_node = Gen_USetNodeHint.insert_hint_node.
-Proof. exact (conj mset_node_hint_same_code umap_node_hint_same_code). Qed.
+Proof. exact node_hint_same_code. Qed.
 Print Assumptions C06_gen_node_hint_same_code.
 
 (* the pre-fix path (forwarding to the wrapper's insert(node&&) and keeping only .position) loses a refused element *)
@@ -456,6 +461,29 @@ Theorem C06_gen_node_functions_same_code :
   Gen_USetNodeIns.extract_iter = Gen_SetNodeIns.extract_iter.
 Proof. exact node_functions_same_code. Qed.
 Print Assumptions C06_gen_node_functions_same_code.
+
+(* ===== (2j) shape-pinning facts about generated forwarders (DEFINITIONAL: each restates the generated code; their content is
+   that the regenerated function still HAS this shape, i.e. a source edit breaks them; the forwarded-to operations are proved
+   elsewhere: TreeSet merge C02, Array::IsEqual C05) ===== *)
+Theorem C06_gen_set_merge_is_a_bare_forward : forall nested_of ev_merge_from st s,
+  Gen_SetMerge.merge nested_of ev_merge_from st s = ev_merge_from st (nested_of s).
+Proof. exact gen_set_merge_forwards. Qed.
+Print Assumptions C06_gen_set_merge_is_a_bare_forward.
+
+Theorem C06_gen_extract_key_shape : forall (it_neqb : Z -> Z -> bool) it_end find_ extract_at k,
+  Gen_SetNodeIns.extract_key it_end it_neqb find_ extract_at k = if it_neqb (find_ k) it_end then extract_at (find_ k) else 0%Z.
+Proof. exact gen_set_extract_key_spec. Qed.
+Print Assumptions C06_gen_extract_key_shape.
+
+Theorem C06_gen_extract_iterator_shape : forall (make_node : Z -> Z -> Z) this_ w,
+  Gen_SetNodeIns.extract_iter make_node this_ w = make_node this_ w.
+Proof. exact gen_extract_iter_spec. Qed.
+Print Assumptions C06_gen_extract_iterator_shape.
+
+Theorem C06_gen_vector_eq_forwards_to_array_is_equal : forall array_is_equal a b,
+  Gen_VecCmp.op_eq array_is_equal a b = array_is_equal a b.
+Proof. exact vec_eq_forwards. Qed.
+Print Assumptions C06_gen_vector_eq_forwards_to_array_is_equal.
 
 (* ===== (3) non-vacuity: the pre-fix shapes of the three repaired functions violate the same statements ===== *)
 Theorem C06_unordered_erase_range_prefix_refuted : exists l first last ps,
